@@ -52,8 +52,8 @@ type duplex struct {
 	cond     *sync.Cond
 	in       []byte // bytes from the peer not yet read
 	eof      bool
-	out      []byte // everything the library wrote
-	deadline time.Time
+	out      []byte    // everything the library wrote
+	rdl, wdl time.Time // read and write deadline
 	reads    int
 	writes   int
 	failRd   int // index of the Read that fails (-1 none)
@@ -129,7 +129,13 @@ func (memAddr) String() string  { return "mem" }
 
 var errInjected = errors.New("harness: injected connection fault")
 
-func (d *duplex) expired() bool { return !d.deadline.IsZero() && d.deadline.Before(time.Now()) }
+func (d *duplex) expired(wr bool) bool {
+	t := d.rdl
+	if wr {
+		t = d.wdl
+	}
+	return !t.IsZero() && t.Before(time.Now())
+}
 
 func (d *duplex) Read(p []byte) (int, error) {
 	d.mu.Lock()
@@ -139,10 +145,10 @@ func (d *duplex) Read(p []byte) (int, error) {
 	if idx == d.failRd {
 		return 0, errInjected
 	}
-	for len(d.in) == 0 && !d.eof && !d.expired() {
+	for len(d.in) == 0 && !d.eof && !d.expired(false) {
 		d.cond.Wait()
 	}
-	if d.expired() {
+	if d.expired(false) {
 		return 0, os.ErrDeadlineExceeded
 	}
 	if len(d.in) == 0 {
@@ -161,7 +167,7 @@ func (d *duplex) Write(p []byte) (int, error) {
 	if idx == d.failWr {
 		return 0, errInjected
 	}
-	if d.expired() {
+	if d.expired(true) {
 		return 0, os.ErrDeadlineExceeded
 	}
 	d.out = append(d.out, p...)
@@ -172,15 +178,21 @@ func (d *duplex) Write(p []byte) (int, error) {
 func (d *duplex) Close() error         { return nil }
 func (d *duplex) LocalAddr() net.Addr  { return memAddr{} }
 func (d *duplex) RemoteAddr() net.Addr { return memAddr{} }
-func (d *duplex) SetDeadline(t time.Time) error {
+func (d *duplex) setDl(t time.Time, rd, wr bool) error {
 	d.mu.Lock()
-	d.deadline = t
+	if rd {
+		d.rdl = t
+	}
+	if wr {
+		d.wdl = t
+	}
 	d.mu.Unlock()
 	d.cond.Broadcast()
 	return nil
 }
-func (d *duplex) SetReadDeadline(t time.Time) error  { return d.SetDeadline(t) }
-func (d *duplex) SetWriteDeadline(t time.Time) error { return d.SetDeadline(t) }
+func (d *duplex) SetDeadline(t time.Time) error      { return d.setDl(t, true, true) }
+func (d *duplex) SetReadDeadline(t time.Time) error  { return d.setDl(t, true, false) }
+func (d *duplex) SetWriteDeadline(t time.Time) error { return d.setDl(t, false, true) }
 
 func (d *duplex) end() {
 	d.mu.Lock()
@@ -450,13 +462,143 @@ func emitHS(r *common.Run, h handshake, kind string, n int, res hsResult) {
 		r.Fail("panic", "real:"+h.name+":"+kind, lines, "negotiation panicked: "+res.err)
 	case res.outcome == "STALL":
 		r.Fail("stall", "real:"+h.name+":"+kind, lines, "session establishment did not return")
-	case kind == "clean" && res.outcome != "done":
+	case (kind == "clean" || kind == "pclean") && res.outcome != "done":
 		r.Fail("harness", "real-handshake-not-clean:"+h.name, lines, "the fault-free handshake fails: "+res.err)
-	case kind != "clean" && res.outcome == "done":
+	case kind != "clean" && kind != "pclean" && res.outcome == "done":
 		r.Fail("fail-closed", "real:"+h.name+":"+kind, lines, fmt.Sprintf("fault %s %d: session establishment returned a nil error", kind, n))
-	case kind != "clean" && res.ready:
+	case kind != "clean" && kind != "pclean" && res.ready:
 		r.Fail("fail-closed", "real-ready-on-error:"+h.name+":"+kind, lines, "session establishment failed ("+res.err+") but the ready bit is set")
 	}
+}
+
+// countConn is the library's end of a real net.Pipe: it counts the writes and lets the harness
+// act when the k-th one starts.
+type countConn struct {
+	net.Conn
+	mu      sync.Mutex
+	writes  int
+	onWrite func(idx int)
+}
+
+func (c *countConn) Write(p []byte) (int, error) {
+	c.mu.Lock()
+	idx := c.writes
+	c.writes++
+	c.mu.Unlock()
+	if c.onWrite != nil {
+		c.onWrite(idx)
+	}
+	return c.Conn.Write(p)
+}
+
+// playPipe runs a handshake over a real net.Pipe (unbuffered, with deadlines). blockWrite: the
+// peer stops reading for good when that write of the library starts, and the context is
+// cancelled at that instant, so the write blocks until the write deadline is moved (-1: never);
+// silentAt: the peer stays silent instead of sending that step and the context is cancelled, so
+// the library blocks in a read (-1: never).
+func playPipe(h handshake, blockWrite, silentAt int) hsResult {
+	c1, c2 := net.Pipe()
+	defer c1.Close()
+	defer c2.Close()
+	ctx, cancel := context.WithCancel(context.Background())
+	defer cancel()
+	peerDone := make(chan struct{})
+	lib := &countConn{Conn: c1}
+	lib.onWrite = func(idx int) {
+		if idx == blockWrite {
+			/* #nosec */
+			c2.SetReadDeadline(time.Unix(1, 0)) // the peer gives up reading …
+			<-peerDone                          // … for good
+			cancel()
+		}
+	}
+	go func() {
+		defer close(peerDone)
+		var rw io.ReadWriter = c2
+		acc := ""
+		chunk := make([]byte, 4096)
+		for i, st := range h.steps {
+			capture := ""
+			if st.expect != nil {
+				for {
+					if m := st.expect.FindStringSubmatchIndex(acc); m != nil {
+						if len(m) >= 4 && m[2] >= 0 {
+							capture = acc[m[2]:m[3]]
+						}
+						acc = acc[m[1]:]
+						break
+					}
+					n, err := rw.Read(chunk)
+					acc += string(chunk[:n])
+					if err != nil {
+						return
+					}
+				}
+			}
+			if silentAt == i {
+				cancel()
+				return
+			}
+			msg := regexp.MustCompile(`\$1`).ReplaceAllLiteralString(st.send, capture)
+			if _, err := rw.Write([]byte(msg)); err != nil {
+				return
+			}
+			if st.tls {
+				tc := tls.Server(c2, serverTLS())
+				if err := tc.Handshake(); err != nil {
+					return
+				}
+				rw = tc
+				acc = ""
+			}
+		}
+		// keep reading so that late writes of the library do not block
+		for {
+			if _, err := rw.Read(chunk); err != nil {
+				return
+			}
+		}
+	}()
+	type ret struct {
+		s     *xmpp.Session
+		err   error
+		panic string
+	}
+	ch := make(chan ret, 1)
+	go func() {
+		var out ret
+		defer func() {
+			if p := recover(); p != nil {
+				out.panic = fmt.Sprint(p)
+			}
+			ch <- out
+		}()
+		out.s, out.err = h.run(ctx, lib)
+	}()
+	res := hsResult{}
+	select {
+	case out := <-ch:
+		switch {
+		case out.panic != "":
+			res.outcome, res.err = "PANIC", out.panic
+		case out.err != nil:
+			res.outcome, res.err = "fail", out.err.Error()
+		default:
+			res.outcome = "done"
+		}
+		if out.s != nil {
+			res.ready = out.s.State()&xmpp.Ready != 0
+		}
+	case <-time.After(3 * time.Second):
+		res.outcome = "STALL"
+	}
+	c1.Close()
+	c2.Close()
+	<-peerDone
+	lib.mu.Lock()
+	res.writes = lib.writes
+	lib.mu.Unlock()
+	return res
 }
 
 // playKind runs handshake h under the fault (kind, n).
@@ -470,6 +612,12 @@ func playKind(h handshake, kind string, n int) hsResult {
 		return play(h, -1, -1, n, -1)
 	case "cancel":
 		return play(h, -1, -1, -1, n)
+	case "pclean":
+		return playPipe(h, -1, -1)
+	case "pwr":
+		return playPipe(h, n, -1)
+	case "prd":
+		return playPipe(h, -1, n)
 	}
 	return play(h, -1, -1, -1, -1)
 }
@@ -528,6 +676,22 @@ func runReal(r *common.Run) {
 			}
 			emit("cancel", j, play(h, -1, -1, -1, j))
 		}
+		// the same handshake over a real net.Pipe: cancellation while blocked in each write
+		// (the peer stops reading) and while blocked in a read before each peer step
+		pc := playPipe(h, -1, -1)
+		emit("pclean", 0, pc)
+		if pc.outcome != "done" {
+			continue
+		}
+		for k := 0; k < pc.writes; k++ {
+			emit("pwr", k, playPipe(h, k, -1))
+		}
+		for j := 0; j < len(h.steps); j++ {
+			if h.steps[j].send == "" {
+				continue
+			}
+			emit("prd", j, playPipe(h, -1, j))
+		}
 	}
-	r.Exhaustive = append(r.Exhaustive, "real SASL PLAIN + bind (initiator TCP, initiator WebSocket, receiver) and component handshakes: every byte prefix of the peer's stream (thorough; every 7th in quick), every failing Read, every failing Write, cancellation before every peer step")
+	r.Exhaustive = append(r.Exhaustive, "real SASL PLAIN + bind (initiator TCP, initiator WebSocket, receiver) and component handshakes: every byte prefix of the peer's stream (thorough; every 7th in quick), every failing Read, every failing Write, cancellation before every peer step; and over a real net.Pipe: cancellation while blocked in each write (peer stops reading) and in a read before each peer step")
 }
